@@ -87,3 +87,40 @@ def c14(ctx):
     ctx.floor("PANIC(codepage)", "potential panic sites in codepage.rs", n, 5)
     return ctx.finish(explanation="match tables of CodePage::{id,from_id,encoding} recovered from MIR and compared with each other and "
                       "with a frozen Windows reference; dominance check of the ASCII gate; constants of the replacement path")
+
+
+@prop("C17")
+def c17(ctx):
+    from .rules import language
+    language.run(ctx)
+    n = panic_module(ctx, "PANIC(language)", ("src/internal/language.rs",),
+                     lambda f: f.file == "src/internal/language.rs" and f.exported, "Language::{from_code,code,from_tag,tag}")
+    ctx.floor("PANIC(language)", "potential panic sites in language.rs", n, 5)
+    return ctx.finish(explanation="conditions on the LANGUAGES literal table (read from HIR) required by the lookups the MIR of tag()/from_tag() "
+                      "actually performs; constants of the fallback paths; frozen Windows reference pairs")
+
+
+@prop("C19")
+def c19(ctx):
+    from .rules import expr
+    expr.run_c19(ctx)
+    expr.run_query_display(ctx)
+    return ctx.finish(explanation="finite decision over all (parent operator, side, child operator) triples using the bracket model extracted "
+                      "from the MIR of Ast::format_with_precedence and the ladder parsed from examples/msiquery.pest; no expression is printed")
+
+
+@prop("C13")
+def c13(ctx):
+    from .rules import expr
+    prog = ctx.prog
+    inv = inventory(prog)
+    ctx.rule("PANIC(eval)", PANIC_TEXT)
+    entries = [f for f in prog.fns.values() if f.crate == "msi" and f.file == "src/internal/expr.rs" and f.exported]
+    n = inv.run(ctx, "PANIC(eval)", entries, only=lambda f: f.file in ("src/internal/expr.rs", "src/internal/value.rs"),
+                label="Expr constructors (constant folding) and Expr::eval")
+    ctx.floor("PANIC(eval)", "potential panic sites in expr.rs reachable from Expr's public API", n, 8)
+    ctx.floor("PANIC(eval)", "public Expr entry points", len(entries), 25)
+    expr.run_c13(ctx)
+    ctx.assume(EXT_ASSUME)
+    return ctx.finish(explanation="panic-edge inventory of the evaluator and the folding constructors; operator identity per match arm; "
+                      "call-graph identity of folding and lazy evaluation; truthiness and short-circuit shape")
